@@ -7,4 +7,5 @@ SpecEmit == Init /\ [][NextEmit]_vars
 \* one line per distinct state: the expected observation (evaluating Obs' inside the action is pathologically slow in TLC)
 EmitObs == PrintT(ToJson([k |-> Key, d |-> depth, obs |-> Obs]))
 View == <<sv, mp, nxt>>
+
 =============================================================================
